@@ -127,6 +127,7 @@ type Run struct {
 	keyCnt   int
 	randCnt  int
 	bytesOfBig map[int][]*Term
+	nonNeg   map[int]bool
 }
 
 func (r *Run) inPrefix() bool { return r.pos < len(r.prefix) }
